@@ -799,6 +799,14 @@ class Exec:
         if id(node) in st.pre:
             return st.pre[id(node)]
         f = node.func
+        if isinstance(f, ast.Attribute) and f.attr == "__class__" and not node.args and not node.keywords:
+            # x.__class__(): an empty container of the same kind (odict() for a config tree)
+            base = lift(self.ev(f.value, st))
+            if isinstance(base, V) and isinstance(base.ty, DictT):
+                return V(base.ty, base.ty.nil)
+            if isinstance(base, V) and isinstance(base.ty, SeqT):
+                return V(base.ty, z3.Empty(base.ty.sort()))
+            raise Unsupported("%s.__class__() (line %d)" % (ast.unparse(f.value), node.lineno))
         # method call
         if isinstance(f, ast.Attribute):
             recv_node = f.value
@@ -856,9 +864,15 @@ class Exec:
         line = node.lineno
         args, kwargs = self.eval_args(node, st)
         if name in ("append", "extend", "pop", "insert", "sort", "clear", "update", "add", "setdefault", "remove"):
-            self.check_mutation(recv_node, st)
+            self.check_mutation(recv_node, st, structural=True)
             for a in node.args:
                 self.note_escape(a, st)
+                if isinstance(a, ast.Name) and isinstance(st.env.get(a.id), V) and st.env[a.id].ty.mutable:
+                    r = recv_node
+                    while isinstance(r, (ast.Subscript, ast.Attribute)):
+                        r = r.value
+                    if isinstance(r, ast.Name):
+                        st.env["__childshared__"] = frozenset(set(st.env.get("__childshared__", ())) | {r.id})
         if isinstance(recv, PyTup) and recv.is_list and name == "append":
             self.assign_to(recv_node, PyTup(recv.items + [args[0]], True), st)
             return NONE_V
@@ -996,7 +1010,9 @@ class Exec:
 
     # ---- lvalues
     def note_alias(self, target, value_node, val, st):
-        """`x = y`, `x = y[k]`, `x = y.a` with a mutable value: both names now denote shared storage"""
+        """`x = y` with a mutable value: both names denote the same object (whole alias: no in-place mutation through either).
+        `x = y[k]` / `x = y.a` / `c[i] = y[k]`: a CHILD of y is shared: x (as a whole) is aliased; y - and a container the child was
+        stored into - may still have entries replaced (`y[k2] = v`, `y.pop(k)`), but nothing below an entry may be mutated in place"""
         if not (isinstance(val, V) and val.ty.mutable):
             return
         n = value_node
@@ -1006,10 +1022,21 @@ class Exec:
             if isinstance(value_node, ast.Subscript) and isinstance(value_node.slice, ast.Slice):
                 return
             al = set(st.env.get("__aliased__", ()))
-            al.add(n.id)
+            cs = set(st.env.get("__childshared__", ()))
+            if isinstance(value_node, ast.Name):
+                al.add(n.id)
+            else:
+                cs.add(n.id)
             if isinstance(target, ast.Name):
                 al.add(target.id)
+            else:
+                r = target
+                while isinstance(r, (ast.Subscript, ast.Attribute)):
+                    r = r.value
+                if isinstance(r, ast.Name):
+                    cs.add(r.id)
             st.env["__aliased__"] = frozenset(al)
+            st.env["__childshared__"] = frozenset(cs)
 
     def note_escape(self, node, st):
         """a mutable value stored into a container (append / item store / yield) is shared from now on: later
@@ -1019,13 +1046,23 @@ class Exec:
             if isinstance(v, V) and v.ty.mutable:
                 st.env["__aliased__"] = frozenset(set(st.env.get("__aliased__", ())) | {node.id})
 
-    def check_mutation(self, target, st):
-        n = target
+    def check_mutation(self, target, st, structural=False):
+        """target: the lvalue being stored to (`y[k]`, `y.a`, `y[k][j]`) or, with structural=True, the receiver of a mutating
+        method (`y` in y.append(..), `y[k]` in y[k].append(..))"""
+        n, depth = target, 0
         while isinstance(n, (ast.Subscript, ast.Attribute)):
             n = n.value
-        if isinstance(n, ast.Name) and n.id in st.env.get("__aliased__", ()):
+            depth += 1
+        if not isinstance(n, ast.Name):
+            return
+        if n.id in st.env.get("__aliased__", ()):
             raise Unsupported("in-place mutation of %s, which is aliased (ownership discipline; line %d)"
                               % (n.id, getattr(target, "lineno", 0)))
+        if n.id in st.env.get("__childshared__", ()):
+            # replacing / adding / removing a top-level entry is fine, reaching below an entry is not
+            if (structural and depth >= 1) or (not structural and depth >= 2):
+                raise Unsupported("in-place mutation below an entry of %s, whose entries are shared (ownership discipline; line %d)"
+                                  % (n.id, getattr(target, "lineno", 0)))
 
     def assign_to(self, target, val, st):
         if isinstance(target, (ast.Subscript, ast.Attribute)):
@@ -1049,6 +1086,8 @@ class Exec:
             st.env[target.id] = lift(val)
             if target.id in st.env.get("__aliased__", ()):
                 st.env["__aliased__"] = frozenset(set(st.env["__aliased__"]) - {target.id})
+            if target.id in st.env.get("__childshared__", ()):
+                st.env["__childshared__"] = frozenset(set(st.env["__childshared__"]) - {target.id})
             return
         if isinstance(target, (ast.Tuple, ast.List)):
             self.bind_target(target, val, st)
